@@ -2,8 +2,31 @@
    (WinInputSpec.v).
 
    Positive theorems are for the repaired configuration [no_defects]; they quantify over all
-   trees, claim patterns and positions; fuel occurs only in hypotheses [height t < fuel]. *)
-From Coq Require Import ZArith List Bool Lia ZifyBool.
+   trees, claim patterns and positions; fuel occurs only in hypotheses [height t < fuel].
+
+   Main results
+     C14_key, C14_term_key            _handle_key / on_term_key deliver exactly [key_spec]
+     C14_mouse                        _handle_mouse delivers exactly [mouse_phase] of [mouse_order]
+     mouse_order_relative             ... each at the position relative to the receiver
+     C14_hidden_never(_key,_mouse)    only visible windows with visible ancestors are on a route
+     C14_drag, spec_start, spec_outside, spec_release
+                                      the drag bracket rules, per step and over every sequence
+     C14_term_mouse(_f), C14_term_mouse_seq
+                                      on_term_mouse = [mouse_spec] (one event / every sequence)
+     C14_mutation_self(_term)         a key handler closing its own window: deliveries are exactly
+                                      those of the unmutated order, no fault, no leaked reference
+     C14_refuted_20, C14_refuted_30   the pinned code fails (vm_compute)
+     C14_nonvacuous, C14_mutation_examples
+
+   Hypotheses used beyond the task's suggestion
+     [focus_okb wn]   (keys only) every focused-child pointer names a child of its window;
+                      without it the model faults or delivers to a window that is not a child,
+                      while [key_order] ignores the pointer.
+     [dsrc_ok R]      (on_term_mouse only) the drag source, if any, is a window of the tree.
+   One divergence between model and spec, harmless and made explicit in [ds_after] /
+   [mouse_spec_equiv]: the repaired on_term_mouse forgets the drag source at the end of a drag,
+   [mouse_spec] keeps it (and never reads it while no drag is on). *)
+From Coq Require Import ZArith List Bool Lia ZifyBool Permutation.
 From Tickit Require Import RectDefs WinRectSet WinDefs WinInput WinInputSpec.
 Import ListNotations.
 Local Open Scope Z_scope.
@@ -61,7 +84,7 @@ Definition mk_state (t : wtree) (armed : list (Z * (Z * Z * Z))) : istate :=
   mkI (mk_root t) [] [] [] armed [] false.
 
 (* ==================================================================================== *)
-(* 6. The pinned defects are refuted on concrete trees                                   *)
+(* A. C14_refuted_20 / C14_refuted_30: the pinned defects, refuted on concrete trees       *)
 
 Definition cfg_20 : defects := mkDefects false false true false false false false false.
 Definition cfg_30 : defects := mkDefects false false false false false false true false.
@@ -112,7 +135,7 @@ Proof.
 Qed.
 
 (* ==================================================================================== *)
-(* 7. Non-vacuity                                                                        *)
+(* B. C14_nonvacuous                                                                      *)
 
 Definition tree_nv : wtree :=
   Node (mkW 0 R0 true false false false (Some 2) 0 0 1 true (-1))
@@ -174,7 +197,7 @@ Proof. rewrite t_ids_eq. left. reflexivity. Qed.
 Lemma kid_ids_in c t x : In c (t_kids t) -> In x (t_ids c) -> In x (flat_map t_ids (t_kids t)).
 Proof. intros Hc Hx. apply in_flat_map. exists c. split; assumption. Qed.
 
-Lemma sub_ids x t : sub x t -> incl (t_ids x) (t_ids t).
+Lemma sub_incl x t : sub x t -> incl (t_ids x) (t_ids t).
 Proof.
   induction 1 as [t|x k t Hk Hs IH].
   - apply incl_refl.
@@ -306,7 +329,7 @@ Proof.
   apply sub_inv in Hs. destruct Hs as [->|(k & Hk & Hxk)].
   - unfold t_id. cbn [t_info]. rewrite Z.eqb_refl. reflexivity.
   - cbn [t_kids] in Hk. apply NoDup_kids in Hnd. cbn [t_kids] in Hnd. destruct Hnd as (Hnd & Hni).
-    assert (Hin : In (t_id x) (t_ids k)) by (apply (sub_ids x k Hxk), t_id_in).
+    assert (Hin : In (t_id x) (t_ids k)) by (apply (sub_incl x k Hxk), t_id_in).
     destruct (w_id i =? t_id x) eqn:E.
     + exfalso. apply Hni. apply in_flat_map. exists k. split; [exact Hk|].
       unfold t_id at 1. cbn [t_info]. replace (w_id i) with (t_id x) by lia. exact Hin.
@@ -369,7 +392,7 @@ Lemma f_find_unique R x : ids_unique R -> subl x (forest R) -> f_find R (t_id x)
 Proof.
   intros Hnd (t & Ht & Hs). unfold f_find.
   apply (first_some_pick _ (t_id x) (forest R) t); try assumption.
-  - apply (sub_ids x t Hs), t_id_in.
+  - apply (sub_incl x t Hs), t_id_in.
   - intros c' _ Hn. apply t_find_none. exact Hn.
   - apply t_find_unique; [|exact Hs]. eapply NoDup_flat_in; [exact Hnd|exact Ht].
 Qed.
@@ -810,8 +833,8 @@ Definition key_step (hk : istate -> Z -> istate * bool) (claims : Z -> Z) (s : i
     if r3 then (release s3 w, true) else
     let '(s4, r4) :=
       let snap := kid_ids s3 w in
-      let '(s', r) := key_loop hk w stolen (hold_all s3 snap) snap in
-      (release_all s' snap, r) in
+      let '(s', r) := key_loop hk w stolen s3 snap in
+      (s', r) in
     (release s4 w, r4)
   end.
 
@@ -924,9 +947,9 @@ Proof.
   { rewrite Hrel. rewrite klog_app_f by exact EA. rewrite klog_app_f by exact EB.
     rewrite klog_app_t by (cbn [existsb]; rewrite Ew; reflexivity). rewrite Hw.
     rewrite !existsb_app, EA, EB. cbn [existsb]. rewrite Ew. reflexivity. }
-  rewrite kid_ids_Q, Hfind. cbn [t_kids]. rewrite hold_all_Q.
+  rewrite kid_ids_Q, Hfind. cbn [t_kids].
   rewrite (Hloop stolen ch (incl_refl ch)). fold C.
-  rewrite release_all_Q, (remove_all_rev _ _ Hndk), Hrel.
+  rewrite Hrel.
   rewrite klog_app_f by exact EA. rewrite klog_app_f by exact EB.
   rewrite klog_app_f by (cbn [existsb]; rewrite Ew; reflexivity). rewrite Hw.
   rewrite !existsb_app, EA, EB. cbn [existsb]. rewrite Ew. reflexivity.
@@ -1106,13 +1129,13 @@ Definition mouse_step (hm : istate -> Z -> Z -> Z -> istate * option Z) (claims 
     let s := hold s w in
     let '(s1, r1) :=
       let snap := kid_ids s w in
-      let '(s', r) := mouse_loop hm w line col (hold_all s snap) snap in
-      (release_all s' snap, r) in
+      let '(s', r) := mouse_loop hm w line col s snap in
+      (s', r) in
     match r1 with
     | Some x => (release s1 w, Some x)
     | None =>
       let '(s2, r2) := run_handler no_defects claims s1 w (IMouse w ty btn line col) in
-      if r2 then (release (hold s2 w) w, Some w) else (release s2 w, None)
+      (release s2 w, if r2 then Some w else None)
     end
   end.
 
@@ -1121,13 +1144,10 @@ Lemma handle_mouse_S f claims s w ty btn line col :
   mouse_step (fun s c cl cc => handle_mouse f no_defects claims s c ty btn cl cc) claims s w ty btn line col.
 Proof. reflexivity. Qed.
 
-Definition push (r : option Z) (H : list Z) : list Z := match r with Some x => x :: H | None => H end.
-
 Definition mouse_ok (f : nat) (claims : Z -> Z) (R : root) (ty btn : Z) (c : wtree) : Prop :=
   forall line col H L,
     handle_mouse f no_defects claims (Q R H L) (t_id c) ty btn line col =
-    (Q R (push (mclaim claims ty (mouse_order c line col)) H)
-         (mlog claims ty btn (mouse_order c line col) L),
+    (Q R H (mlog claims ty btn (mouse_order c line col) L),
      mclaim claims ty (mouse_order c line col)).
 
 Definition G (line col : Z) (c : wtree) : list (Z * Z * Z) :=
@@ -1140,8 +1160,7 @@ Lemma mouse_loop_Q f claims R ty btn wn line col :
   forall cs, incl cs (t_kids wn) -> forall H L,
   mouse_loop (fun s c cl cc => handle_mouse f no_defects claims s c ty btn cl cc) (t_id wn) line col
              (Q R H L) (map t_id cs) =
-  (Q R (push (mclaim claims ty (flat_map (G line col) cs)) H)
-       (mlog claims ty btn (flat_map (G line col) cs) L),
+  (Q R H (mlog claims ty btn (flat_map (G line col) cs) L),
    mclaim claims ty (flat_map (G line col) cs)).
 Proof.
   intros Hu Hs Hok. induction cs as [|a cs IH]; intros Hincl H L; [reflexivity|].
@@ -1158,7 +1177,7 @@ Proof.
     destruct (existsb (mP claims ty) ro) eqn:Ea.
     + destruct (mclaim_some _ _ _ Ea) as (x & lc & cc & Hx & _ & _).
       rewrite mclaim_app, Ea, Hx. rewrite mlog_app_t by exact Ea. reflexivity.
-    + rewrite (mclaim_none _ _ _ Ea). cbn [push]. rewrite (IH Hincl').
+    + rewrite (mclaim_none _ _ _ Ea). rewrite (IH Hincl').
       rewrite mclaim_app, Ea. rewrite mlog_app_f by exact Ea. reflexivity.
   - apply IH. exact Hincl'.
 Qed.
@@ -1181,37 +1200,32 @@ Proof.
   change (w_id i) with (t_id (Node i ch)).
   set (w := t_id (Node i ch)) in *.
   destruct (w_vis i) eqn:Ev; cbn [negb]; [|reflexivity].
-  rewrite hold_Q. cbv zeta. rewrite kid_ids_Q, Hfind. cbn [t_kids]. rewrite hold_all_Q.
+  rewrite hold_Q. cbv zeta. rewrite kid_ids_Q, Hfind. cbn [t_kids].
   rewrite (Hloop ch (incl_refl ch)). fold (G line col).
   set (K := flat_map (G line col) ch).
   destruct (existsb (mP claims ty) K) eqn:EK.
   - destruct (mclaim_some _ _ _ EK) as (x & lc & cc & Hx & _ & _).
-    rewrite Hx. cbn [push]. rewrite release_all_Q, (remove_all_rev_x _ _ _ Hndk), release_Q.
-    rewrite mclaim_app, EK, Hx. rewrite mlog_app_t by exact EK. cbn [push].
-    cbn [remove_one]. destruct (x =? w) eqn:E.
-    + assert (x = w) by lia. subst x. reflexivity.
-    + rewrite Z.eqb_refl. reflexivity.
-  - rewrite (mclaim_none _ _ _ EK). cbn [push].
-    rewrite release_all_Q, (remove_all_rev _ _ Hndk). rewrite run_handler_Q. cbn [ev_bit].
+    rewrite Hx. rewrite release_Q.
+    rewrite mclaim_app, EK, Hx. rewrite mlog_app_t by exact EK.
+    cbn [remove_one]. rewrite Z.eqb_refl. reflexivity.
+  - rewrite (mclaim_none _ _ _ EK).
+    rewrite run_handler_Q. cbn [ev_bit].
     rewrite mclaim_app, EK. rewrite mlog_app_f by exact EK.
-    rewrite mlog_one, !mclaim_one.
-    destruct (Z.testbit (claims w) ty) eqn:Ew; cbn [push].
-    + rewrite hold_Q, release_Q. cbn [remove_one]. rewrite Z.eqb_refl. reflexivity.
-    + rewrite release_Q. cbn [remove_one]. rewrite Z.eqb_refl. reflexivity.
+    rewrite mlog_one, mclaim_one. rewrite release_Q. cbn [remove_one]. rewrite Z.eqb_refl. reflexivity.
 Qed.
 
 (* C14, mouse: with handlers that do not change the tree, _handle_mouse on window w at
    (line, col) offers the event to exactly the windows of [mouse_order wn line col] -- the
    frontmost visible child under the pointer (or stealing input) and its descendants before
    anything behind it, each window after its children, each at the position relative to it --
-   up to and including the first that claims; it returns that window, with one reference to it;
-   everything else is as before. *)
+   up to and including the first that claims; it returns that window (without a reference: the
+   routing code holds none when it returns); everything else is as before. *)
 Theorem C14_mouse fuel claims s w wn ty btn line col s' r :
   quiet s -> ids_unique (i_root s) -> look s w = Some wn -> (height wn < fuel)%nat ->
   handle_mouse fuel no_defects claims s w ty btn line col = (s', r) ->
   i_log s' = rev (fst (mouse_phase claims (mouse_order wn line col) ty btn)) ++ i_log s /\
   r = snd (mouse_phase claims (mouse_order wn line col) ty btn) /\
-  i_holds s' = match r with Some x => x :: i_holds s | None => i_holds s end /\
+  i_holds s' = i_holds s /\
   i_root s' = i_root s /\ i_fault s' = false /\ quiet s'.
 Proof.
   intros Hq Hu Hl Hh Hrun.
@@ -2019,3 +2033,785 @@ Proof.
   { rewrite Hlog', Hlog, Hfst. rewrite rev_app_distr, <- app_assoc. reflexivity. }
   split; [exact Hds'|]. split; [exact Htree'|exact Hq'].
 Qed.
+
+(* ==================================================================================== *)
+(* 10. A handler that closes its own window while a key is routed                        *)
+
+(* the tree after closing w0, node by node: the parent loses the child (and its
+   focused-child pointer if it pointed there); everything else is as it was *)
+Fixpoint cut (w0 : Z) (n : wtree) : wtree :=
+  match n with
+  | Node i ch =>
+    Node (if existsb (fun c => t_id c =? w0) ch && opt_eqb (w_fchild i) w0 then set_fchild i None else i)
+         (kids_remove w0 (map (cut w0) ch))
+  end.
+
+Lemma cut_id_eq w0 n : t_id (cut w0 n) = t_id n.
+Proof. destruct n as [i ch]. unfold t_id. cbn [cut t_info]. destruct (_ && _); reflexivity. Qed.
+
+Lemma cut_vis w0 n : w_vis (t_info (cut w0 n)) = w_vis (t_info n).
+Proof. destruct n as [i ch]. cbn [cut t_info]. destruct (_ && _); reflexivity. Qed.
+
+Lemma cut_kids w0 i ch : t_kids (cut w0 (Node i ch)) = map (cut w0) (kids_remove w0 ch).
+Proof.
+  cbn [cut t_kids]. unfold kids_remove. induction ch as [|c r IH]; [reflexivity|].
+  cbn [map filter]. rewrite cut_id_eq. destruct (negb (t_id c =? w0)); cbn [map]; rewrite IH; reflexivity.
+Qed.
+
+Lemma filter_all {A} (f : A -> bool) l : (forall x, In x l -> f x = true) -> filter f l = l.
+Proof.
+  induction l as [|a l IH]; intros Hf; [reflexivity|]. cbn [filter].
+  rewrite (Hf a (or_introl eq_refl)). f_equal. apply IH. intros x Hx. apply Hf. right. exact Hx.
+Qed.
+
+Lemma map_id_in {A} (f : A -> A) l : (forall x, In x l -> f x = x) -> map f l = l.
+Proof.
+  induction l as [|a l IH]; intros Hf; [reflexivity|]. cbn [map].
+  rewrite (Hf a (or_introl eq_refl)). f_equal. apply IH. intros x Hx. apply Hf. right. exact Hx.
+Qed.
+
+Lemma cut_same w0 n : ~ In w0 (flat_map t_ids (t_kids n)) -> cut w0 n = n.
+Proof.
+  induction n as [i ch IH] using wtree_ind'. cbn [t_kids]. intros Hn. cbn [cut].
+  assert (Hk : forall c, In c ch -> (t_id c =? w0) = false).
+  { intros c Hc. destruct (t_id c =? w0) eqn:E; [|reflexivity]. exfalso. apply Hn.
+    apply in_flat_map. exists c. split; [exact Hc|]. replace w0 with (t_id c) by lia. apply t_id_in. }
+  assert (He : existsb (fun c => t_id c =? w0) ch = false).
+  { destruct (existsb (fun c => t_id c =? w0) ch) eqn:E; [|reflexivity].
+    apply existsb_exists in E. destruct E as (c & Hc & Hid). rewrite (Hk c Hc) in Hid. discriminate Hid. }
+  rewrite He. cbn [andb]. f_equal.
+  change (kids_remove w0 (map (cut w0) ch)) with (t_kids (cut w0 (Node i ch))). rewrite cut_kids.
+  unfold kids_remove.
+  rewrite filter_all by (intros c Hc; rewrite (Hk c Hc); reflexivity).
+  apply map_id_in. intros c Hc. rewrite Forall_forall in IH. apply IH; [exact Hc|].
+  intro Hi. apply Hn. apply in_flat_map. exists c. split; [exact Hc|]. rewrite t_ids_eq. right. exact Hi.
+Qed.
+
+Lemma cut_same' w0 n : ~ In w0 (t_ids n) -> cut w0 n = n.
+Proof. intros Hn. apply cut_same. intro Hi. apply Hn. rewrite t_ids_eq. right. exact Hi. Qed.
+
+Lemma NoDup_app_intro {A} (l1 l2 : list A) :
+  NoDup l1 -> NoDup l2 -> (forall x, In x l1 -> ~ In x l2) -> NoDup (l1 ++ l2).
+Proof.
+  induction l1 as [|a l1 IH]; intros H1 H2 H3; [exact H2|].
+  inversion H1 as [|? ? Hn Hd]; subst. cbn [app]. constructor.
+  - intro Hi. apply in_app_or in Hi. destruct Hi as [Hi|Hi]; [contradiction|].
+    exact (H3 a (or_introl eq_refl) Hi).
+  - apply IH; [exact Hd|exact H2|]. intros x Hx. apply H3. right. exact Hx.
+Qed.
+
+Lemma flat_filter_incl (f : wtree -> bool) l x :
+  In x (flat_map t_ids (filter f l)) -> In x (flat_map t_ids l).
+Proof.
+  intros Hx. apply in_flat_map in Hx. destruct Hx as (c & Hc & Hx). apply filter_In in Hc.
+  apply in_flat_map. exists c. split; [apply Hc|exact Hx].
+Qed.
+
+Lemma NoDup_flat_filter (f : wtree -> bool) l :
+  NoDup (flat_map t_ids l) -> NoDup (flat_map t_ids (filter f l)).
+Proof.
+  induction l as [|a r IH]; intros Hnd; [constructor|]. cbn [flat_map] in Hnd.
+  apply NoDup_app_inv in Hnd. destruct Hnd as (H1 & H2 & H3). cbn [filter].
+  destruct (f a); [|apply IH; exact H2]. cbn [flat_map].
+  apply NoDup_app_intro; [exact H1|apply IH; exact H2|].
+  intros x Hx Hi. apply (H3 x Hx). eapply flat_filter_incl. exact Hi.
+Qed.
+
+Lemma flat_map_filter {B} (F : wtree -> list B) (f : wtree -> bool) l :
+  (forall c, In c l -> f c = false -> F c = []) -> flat_map F (filter f l) = flat_map F l.
+Proof.
+  induction l as [|a r IH]; intros Hf; [reflexivity|]. cbn [filter flat_map].
+  assert (IH' : flat_map F (filter f r) = flat_map F r).
+  { apply IH. intros c Hc. apply Hf. right. exact Hc. }
+  destruct (f a) eqn:Ea.
+  - cbn [flat_map]. rewrite IH'. reflexivity.
+  - rewrite (Hf a (or_introl eq_refl) Ea). cbn [app]. exact IH'.
+Qed.
+
+Section SelfClose.
+  Variable claims : Z -> Z.
+  Variable R0 : root.
+  Variable w0 : Z.
+  Let R1 : root := win_close no_defects R0 w0.
+  Let A0 : list (Z * (Z * Z * Z)) := [(w0, (0, 1, w0))].
+
+  Hypothesis Hu0 : ids_unique R0.
+  Hypothesis Hin0 : t_find w0 (r_tree R0) <> None.
+  Hypothesis Hnr0 : w0 <> t_id (r_tree R0).
+  (* what closing does to the forest (proved for win_close below) *)
+  Hypothesis CP1 : ids_unique R1.
+  Hypothesis CP2 : forall wn, subl wn (forest R0) -> subl (cut w0 wn) (forest R1).
+
+  Definition cur (b : bool) : root := if b then R1 else R0.
+  Definition arm (b : bool) : list (Z * (Z * Z * Z)) := if b then [] else A0.
+  (* the state before (b = false) and after (b = true) the handler of w0 has run *)
+  Definition St (b : bool) (H : list Z) (L : list iev) : istate := mkI (cur b) [] H [] (arm b) L false.
+
+  Definition fires (l : list Z) : bool := mem w0 (fst (until_claim (kP claims) l)).
+
+  Lemma fires_app_t l1 l2 : existsb (kP claims) l1 = true -> fires (l1 ++ l2) = fires l1.
+  Proof. intros He. unfold fires. rewrite uc_fst_app, He. reflexivity. Qed.
+
+  Lemma fires_app_f l1 l2 : existsb (kP claims) l1 = false -> fires (l1 ++ l2) = fires l1 || fires l2.
+  Proof.
+    intros He. unfold fires, mem. rewrite uc_fst_app, He, (uc_fst_noclaim _ _ He). apply existsb_app.
+  Qed.
+
+  Lemma fires_in l : fires l = true -> In w0 l.
+  Proof.
+    unfold fires, mem. intros Hf. apply existsb_exists in Hf. destruct Hf as (x & Hx & He).
+    apply uc_fst_incl in Hx. replace w0 with x by lia. exact Hx.
+  Qed.
+
+  Lemma look_St b H L w : look (St b H L) w = f_find (cur b) w.
+  Proof. reflexivity. Qed.
+  Lemma hold_St b H L w : hold (St b H L) w = St b (w :: H) L.
+  Proof. reflexivity. Qed.
+  Lemma release_St b H L w : release (St b H L) w = St b (remove_one w H) L.
+  Proof. reflexivity. Qed.
+  Lemma fchild_of_St b H L w :
+    fchild_of (St b H L) w = match f_find (cur b) w with Some n => w_fchild (t_info n) | None => None end.
+  Proof. reflexivity. Qed.
+  Lemma kid_ids_St b H L w :
+    kid_ids (St b H L) w = match f_find (cur b) w with Some n => map t_id (t_kids n) | None => [] end.
+  Proof. reflexivity. Qed.
+  Lemma hold_all_St b l : forall H L, hold_all (St b H L) l = St b (rev l ++ H) L.
+  Proof.
+    unfold hold_all. induction l as [|a l IH]; intros H L; [reflexivity|].
+    cbn [fold_left rev]. rewrite hold_St, IH, <- app_assoc. reflexivity.
+  Qed.
+  Lemma release_all_St b l : forall H L, release_all (St b H L) l = St b (remove_all l H) L.
+  Proof.
+    unfold release_all, remove_all. induction l as [|a l IH]; intros H L; [reflexivity|].
+    cbn [fold_left]. rewrite release_St, IH. reflexivity.
+  Qed.
+
+  Lemma run_handler_St b H L w :
+    run_handler no_defects claims (St b H L) w (IKey w) =
+    (St (b || (w =? w0)) H (IKey w :: L), kP claims w).
+  Proof.
+    destruct b; [reflexivity|]. cbn [orb].
+    unfold run_handler, St, arm, cur, A0. cbn [i_root i_freed i_holds i_pending i_armed i_log i_fault ev_class ev_bit armed_take].
+    rewrite (Z.eqb_sym w0 w). destruct (w =? w0) eqn:E; cbn [andb Z.eqb].
+    - destruct (t_find w0 (r_tree R0)) eqn:Ef; [|contradiction].
+      destruct (w0 =? t_id (r_tree R0)) eqn:En; [lia|]. reflexivity.
+    - reflexivity.
+  Qed.
+
+  Lemma R1_find wn : subl wn (forest R0) -> f_find R1 (t_id wn) = Some (cut w0 wn).
+  Proof. intros Hs. rewrite <- (cut_id_eq w0 wn). apply f_find_unique; [exact CP1|apply CP2; exact Hs]. Qed.
+
+  Lemma cut_kid_in wn c : In c (t_kids wn) -> t_id c <> w0 -> In (cut w0 c) (t_kids (cut w0 wn)).
+  Proof.
+    destruct wn as [i ch]. cbn [t_kids]. intros Hc Hne. rewrite cut_kids. apply in_map.
+    unfold kids_remove. apply filter_In. split; [exact Hc|]. destruct (t_id c =? w0) eqn:E; [lia|reflexivity].
+  Qed.
+
+  Lemma R1_parent wn c :
+    subl wn (forest R0) -> In c (t_kids wn) -> t_id c <> w0 -> f_parent R1 (t_id c) = Some (t_id wn).
+  Proof.
+    intros Hs Hc Hne. rewrite <- (cut_id_eq w0 c), <- (cut_id_eq w0 wn).
+    apply f_parent_unique; [exact CP1|apply CP2; exact Hs|apply cut_kid_in; assumption].
+  Qed.
+
+  Lemma R1_kid_same wn c :
+    subl wn (forest R0) -> In c (t_kids wn) -> ~ In w0 (t_ids c) -> subl c (forest R1).
+  Proof.
+    intros Hs Hc Hn. rewrite <- (cut_same' w0 c Hn). eapply subl_kid; [apply CP2; exact Hs|].
+    apply cut_kid_in; [exact Hc|]. intro He. apply Hn. rewrite <- He. apply t_id_in.
+  Qed.
+
+  Definition mut_ok (f : nat) (c : wtree) : Prop :=
+    forall H L, handle_key f no_defects claims (St false H L) (t_id c) =
+                (St (fires (key_order c)) H (klog claims (key_order c) L),
+                 existsb (kP claims) (key_order c)).
+
+  Definition skipb (fc stolen : option Z) (c : wtree) : bool :=
+    opt_eqb fc (t_id c) || opt_eqb stolen (t_id c).
+
+  Lemma F3_skip fc stolen c : F3 fc stolen c = if skipb fc stolen c then [] else key_order c.
+  Proof. unfold F3, skipb. rewrite <- negb_orb. destruct (_ || _); reflexivity. Qed.
+
+  (* the snapshot loop, started before or after the handler of w0 has run *)
+  Lemma mut_loop f i ch stolen :
+    subl (Node i ch) (forest R0) ->
+    (forall c, In c ch -> mut_ok f c) ->
+    (forall c, In c ch -> focus_okb c = true /\ (height c < f)%nat) ->
+    forall cs, incl cs ch -> NoDup (flat_map t_ids cs) ->
+    forall b H L,
+    (b = true -> forall c, In c cs -> t_id c <> w0 /\ (In w0 (t_ids c) -> skipb (w_fchild i) stolen c = true)) ->
+    key_loop (handle_key f no_defects claims) (t_id (Node i ch)) stolen (St b H L) (map t_id cs) =
+    (St (b || fires (flat_map (F3 (w_fchild i) stolen) cs)) H
+        (klog claims (flat_map (F3 (w_fchild i) stolen) cs) L),
+     existsb (kP claims) (flat_map (F3 (w_fchild i) stolen) cs)).
+  Proof.
+    intros Hs Hok Hfh. set (wn := Node i ch) in *.
+    induction cs as [|a cs IH]; intros Hincl Hnd b H L Hb.
+    { cbn [map flat_map]. rewrite key_loop_nil. unfold fires. cbn [until_claim fst mem existsb].
+      rewrite orb_false_r. reflexivity. }
+    assert (Ha : In a (t_kids wn)) by (apply Hincl; left; reflexivity).
+    assert (Hincl' : incl cs ch) by (intros x Hx; apply Hincl; right; exact Hx).
+    cbn [flat_map] in Hnd. apply NoDup_app_inv in Hnd. destruct Hnd as (Hnda & Hndcs & Hsep).
+    cbn [map flat_map]. rewrite key_loop_cons. change (i_root (St b H L)) with (cur b).
+    unfold key_skip. rewrite fchild_of_St. rewrite !opt_is_eqb. rewrite F3_skip.
+    destruct b.
+    - (* after the handler of w0: the tree is R1 *)
+      destruct (Hb eq_refl a (or_introl eq_refl)) as (Hne & Hsk).
+      cbn [cur orb]. rewrite (R1_parent wn a Hs Ha Hne). cbn [opt_eqb]. rewrite Z.eqb_refl. cbn [negb].
+      rewrite (R1_find wn Hs).
+      assert (Hskip_eq : opt_eqb (w_fchild (t_info (cut w0 wn))) (t_id a) || opt_eqb stolen (t_id a)
+                         = skipb (w_fchild i) stolen a).
+      { unfold skipb. subst wn. cbn [cut t_info].
+        destruct (existsb (fun c => t_id c =? w0) ch && opt_eqb (w_fchild i) w0) eqn:Ec; [|reflexivity].
+        cbn [set_fchild w_fchild opt_eqb orb].
+        destruct (w_fchild i) as [k|]; [|reflexivity]. cbn [opt_eqb] in *.
+        destruct (k =? t_id a) eqn:Ek; [|reflexivity]. lia. }
+      rewrite Hskip_eq.
+      assert (Hb' : true = true -> forall c, In c cs ->
+                t_id c <> w0 /\ (In w0 (t_ids c) -> skipb (w_fchild i) stolen c = true)).
+      { intros _ c Hc. apply (Hb eq_refl). right. exact Hc. }
+      destruct (skipb (w_fchild i) stolen a) eqn:Esk; cbn [app].
+      + apply (IH Hincl' Hndcs true H L Hb').
+      + assert (Hn : ~ In w0 (t_ids a)).
+        { intro Hi. pose proof (Hsk Hi) as Ht. try rewrite Esk in Ht. discriminate Ht. }
+        destruct (Hfh a Ha) as (Hfo & Hh).
+        change (St true H L) with (Q R1 H L).
+        rewrite (handle_key_Q claims R1 CP1 f a (R1_kid_same wn a Hs Ha Hn) Hfo Hh).
+        destruct (existsb (kP claims) (key_order a)) eqn:Ea.
+        * rewrite klog_app_t by exact Ea. rewrite existsb_app, Ea. reflexivity.
+        * change (Q R1 H (klog claims (key_order a) L)) with (St true H (klog claims (key_order a) L)).
+          rewrite (IH Hincl' Hndcs true H _ Hb').
+          rewrite klog_app_f by exact Ea. rewrite existsb_app, Ea. reflexivity.
+    - (* before: the tree is R0 *)
+      cbn [cur orb]. rewrite (f_parent_unique R0 wn a Hu0 Hs Ha). cbn [opt_eqb]. rewrite Z.eqb_refl. cbn [negb].
+      rewrite (f_find_unique R0 wn Hu0 Hs). subst wn. cbn [t_info]. fold (skipb (w_fchild i) stolen a).
+      destruct (skipb (w_fchild i) stolen a) eqn:Esk; cbn [app].
+      + apply (IH Hincl' Hndcs false H L). intros Hf; discriminate Hf.
+      + rewrite (Hok a Ha).
+        assert (Hnext : fires (key_order a) = true -> forall c, In c cs ->
+                  t_id c <> w0 /\ (In w0 (t_ids c) -> skipb (w_fchild i) stolen c = true)).
+        { intros Hf c Hc. apply fires_in, key_order_ids in Hf.
+          assert (Hn : ~ In w0 (t_ids c)).
+          { intro Hi. apply (Hsep w0 Hf). apply in_flat_map. exists c. split; assumption. }
+          split; [|intro Hi; contradiction]. intro He. apply Hn. rewrite <- He. apply t_id_in. }
+        destruct (existsb (kP claims) (key_order a)) eqn:Ea.
+        * rewrite klog_app_t by exact Ea. rewrite existsb_app, Ea. rewrite fires_app_t by exact Ea. reflexivity.
+        * rewrite (IH Hincl' Hndcs (fires (key_order a)) H _ Hnext).
+          rewrite klog_app_f by exact Ea. rewrite existsb_app, Ea. rewrite fires_app_f by exact Ea. reflexivity.
+  Qed.
+
+  Lemma fires_flat (F : wtree -> list Z) l : fires (flat_map F l) = true -> exists c, In c l /\ In w0 (F c).
+  Proof. intros Hf. apply fires_in in Hf. apply in_flat_map in Hf. exact Hf. Qed.
+
+  Lemma fires_nil : fires [] = false.
+  Proof. reflexivity. Qed.
+
+  Lemma fires_one w : fires [w] = (w =? w0).
+  Proof.
+    unfold fires. cbn [until_claim]. destruct (kP claims w); cbn [fst mem existsb]; apply orb_false_r.
+  Qed.
+
+  Theorem mut_key : forall fuel wn,
+    subl wn (forest R0) -> focus_okb wn = true -> (height wn < fuel)%nat -> mut_ok fuel wn.
+  Proof.
+    induction fuel as [|f IHf]; intros wn Hs Hfo Hh H L; [lia|].
+    assert (Hfind : f_find R0 (t_id wn) = Some wn) by (apply f_find_unique; assumption).
+    assert (Hfind1 : f_find R1 (t_id wn) = Some (cut w0 wn)) by (apply R1_find; exact Hs).
+    assert (Hfh : forall c, In c (t_kids wn) -> focus_okb c = true /\ (height c < f)%nat).
+    { intros c Hc. split; [eapply focus_ok_kid; eassumption|]. apply height_kid in Hc. lia. }
+    assert (Hkids : forall c, In c (t_kids wn) -> mut_ok f c).
+    { intros c Hc. destruct (Hfh c Hc). apply IHf; try assumption. eapply subl_kid; eassumption. }
+    assert (Hndw : NoDup (t_ids wn)) by (apply (subl_nodup R0 wn Hu0 Hs)).
+    destruct (NoDup_kids wn Hndw) as (Hndch & Hself).
+    assert (Hndk : NoDup (map t_id (t_kids wn))) by (apply NoDup_kid_ids; exact Hndch).
+    pose proof (mut_loop f) as Hloop.
+    rewrite handle_key_S. unfold key_step. rewrite look_St. cbn [cur]. rewrite Hfind.
+    destruct wn as [i ch]. cbn [t_info t_kids] in *. rewrite key_order_eq.
+    change (w_id i) with (t_id (Node i ch)).
+    set (w := t_id (Node i ch)) in *.
+    destruct (w_vis i) eqn:Ev; cbn [negb]; [|reflexivity].
+    rewrite hold_St. cbv zeta.
+    set (stolen := match ch with c :: _ => if w_steal (t_info c) then Some (t_id c) else None | [] => None end).
+    set (A := flat_map (fun c => if opt_eqb stolen (t_id c) then key_order c else []) ch).
+    set (B := flat_map (fun c => if opt_eqb (w_fchild i) (t_id c) && negb (opt_eqb stolen (t_id c)) then key_order c else []) ch).
+    fold (F3 (w_fchild i) stolen).
+    set (C := flat_map (F3 (w_fchild i) stolen) ch).
+    assert (H1 : match ch with
+      | [] => (St false (w :: H) L, false, None)
+      | c :: _ =>
+          if w_steal (t_info c)
+          then let '(s', r) := handle_key f no_defects claims (St false (w :: H) L) (t_id c) in (s', r, Some (t_id c))
+          else (St false (w :: H) L, false, None)
+      end = (St (fires A) (w :: H) (klog claims A L), existsb (kP claims) A, stolen)).
+    { subst A stolen. destruct ch as [|c0 r]; [reflexivity|].
+      destruct (w_steal (t_info c0)) eqn:Est.
+      - rewrite (Hkids c0 (or_introl eq_refl)). cbn [flat_map opt_eqb]. rewrite Z.eqb_refl.
+        rewrite flat_map_nil; [rewrite app_nil_r; reflexivity|].
+        intros c Hc. cbn [map] in Hndk. inversion Hndk as [|? ? Hn Hd]; subst.
+        destruct (t_id c0 =? t_id c) eqn:E; [|reflexivity].
+        exfalso. apply Hn. replace (t_id c0) with (t_id c) by (clear - E; lia). apply in_map. exact Hc.
+      - rewrite flat_map_nil; [reflexivity|]. intros c _. reflexivity. }
+    rewrite H1. clear H1.
+    assert (Hrel : forall b L', release (St b (w :: H) L') w = St b H L').
+    { intros b L'. rewrite release_St. cbn [remove_one]. rewrite Z.eqb_refl. reflexivity. }
+    destruct (existsb (kP claims) A) eqn:EA.
+    { rewrite Hrel. rewrite klog_app_t by exact EA. rewrite existsb_app, EA. rewrite fires_app_t by exact EA. reflexivity. }
+    (* where the handler of w0 may have run so far *)
+    assert (HfA : fires A = true -> exists c, In c ch /\ opt_eqb stolen (t_id c) = true /\ In w0 (t_ids c)).
+    { intros Hf. apply fires_flat in Hf. destruct Hf as (c & Hc & Hi). exists c. split; [exact Hc|].
+      destruct (opt_eqb stolen (t_id c)); [|destruct Hi]. split; [reflexivity|apply key_order_ids; exact Hi]. }
+    assert (HfB : fires B = true -> exists c, In c ch /\ opt_eqb (w_fchild i) (t_id c) = true /\ In w0 (t_ids c)).
+    { intros Hf. apply fires_flat in Hf. destruct Hf as (c & Hc & Hi). exists c. split; [exact Hc|].
+      destruct (opt_eqb (w_fchild i) (t_id c)); [|destruct Hi]. split; [reflexivity|].
+      destruct (negb (opt_eqb stolen (t_id c))); [|destruct Hi]. apply key_order_ids; exact Hi. }
+    rewrite fchild_of_St.
+    assert (H2 : match match f_find (cur (fires A)) w with Some n => w_fchild (t_info n) | None => None end with
+      | Some k => if opt_is stolen (Some k) then (St (fires A) (w :: H) (klog claims A L), false)
+                  else handle_key f no_defects claims (St (fires A) (w :: H) (klog claims A L)) k
+      | None => (St (fires A) (w :: H) (klog claims A L), false)
+      end = (St (fires A || fires B) (w :: H) (klog claims B (klog claims A L)), existsb (kP claims) B)).
+    { destruct (fires A) eqn:EfA; cbn [cur orb].
+      - (* the handler ran inside the stealing child *)
+        destruct (HfA eq_refl) as (c0 & Hc0 & Hst0 & Hw0).
+        rewrite Hfind1. cbn [cut t_info].
+        destruct (existsb (fun c => t_id c =? w0) ch && opt_eqb (w_fchild i) w0) eqn:Ec.
+        + cbn [set_fchild w_fchild].
+          apply andb_true_iff in Ec. destruct Ec as (Hx & Hfc). apply existsb_exists in Hx.
+          destruct Hx as (k & Hk & Hkid).
+          assert (Hkc : k = c0).
+          { apply (NoDup_flat_sep ch k c0 w0 Hndch Hk Hc0); [|exact Hw0].
+            replace w0 with (t_id k) by (clear - Hkid; lia). apply t_id_in. }
+          subst k.
+          assert (HB : B = []).
+          { subst B. apply flat_map_nil. intros c Hc.
+            destruct (w_fchild i) as [q|]; [|reflexivity]. cbn [opt_eqb] in *.
+            destruct (q =? t_id c) eqn:Eq; [|reflexivity]. cbn [andb].
+            assert (Hcc : c = c0).
+            { apply (NoDup_flat_sep ch c c0 w0 Hndch Hc Hc0); [|exact Hw0].
+              replace w0 with (t_id c) by (clear - Eq Hfc; lia). apply t_id_in. }
+            subst c. rewrite Hst0. reflexivity. }
+          rewrite HB. reflexivity.
+        + destruct (w_fchild i) as [k|] eqn:Efc.
+          * cbn [focus_okb] in Hfo. rewrite Efc in Hfo. apply andb_true_iff in Hfo. destruct Hfo as (Hex & _).
+            apply existsb_exists in Hex. destruct Hex as (ck & Hck & Hid).
+            assert (k = t_id ck) by (clear - Hid; lia). subst k. clear Hid.
+            subst B. rewrite (flat_map_single _ ch ck Hndk Hck).
+            -- rewrite opt_is_eqb. cbn [opt_eqb]. rewrite Z.eqb_refl. cbn [andb].
+               destruct (opt_eqb stolen (t_id ck)) eqn:Est; cbn [negb]; [reflexivity|].
+               assert (Hn : ~ In w0 (t_ids ck)).
+               { intro Hi. assert (ck = c0) by (apply (NoDup_flat_sep ch ck c0 w0 Hndch Hck Hc0 Hi Hw0)).
+                 subst ck. rewrite Hst0 in Est. discriminate Est. }
+               destruct (Hfh ck Hck) as (Hfok & Hhk).
+               change (St true (w :: H) (klog claims A L)) with (Q R1 (w :: H) (klog claims A L)).
+               rewrite (handle_key_Q claims R1 CP1 f ck (R1_kid_same (Node i ch) ck Hs Hck Hn) Hfok Hhk).
+               reflexivity.
+            -- intros c _ Hne. cbn [opt_eqb]. destruct (t_id ck =? t_id c) eqn:E; [clear - E Hne; lia|reflexivity].
+          * subst B. rewrite flat_map_nil; [reflexivity|]. intros c _. reflexivity.
+      - (* not yet *)
+        rewrite Hfind. cbn [t_info]. subst B. destruct (w_fchild i) as [k|] eqn:Efc.
+        + cbn [focus_okb] in Hfo. rewrite Efc in Hfo. apply andb_true_iff in Hfo. destruct Hfo as (Hex & _).
+          apply existsb_exists in Hex. destruct Hex as (ck & Hck & Hid).
+          assert (k = t_id ck) by (clear - Hid; lia). subst k. clear Hid.
+          rewrite (flat_map_single _ ch ck Hndk Hck).
+          * rewrite opt_is_eqb. cbn [opt_eqb]. rewrite Z.eqb_refl. cbn [andb].
+            destruct (opt_eqb stolen (t_id ck)); cbn [negb]; [reflexivity|].
+            apply (Hkids ck Hck).
+          * intros c _ Hne. cbn [opt_eqb]. destruct (t_id ck =? t_id c) eqn:E; [clear - E Hne; lia|reflexivity].
+        + rewrite flat_map_nil; [reflexivity|]. intros c _. reflexivity. }
+    rewrite H2. clear H2.
+    destruct (existsb (kP claims) B) eqn:EB.
+    { rewrite Hrel. rewrite klog_app_f by exact EA. rewrite klog_app_t by exact EB.
+      rewrite !existsb_app, EA, EB. rewrite fires_app_f by exact EA. rewrite fires_app_t by exact EB. reflexivity. }
+    rewrite run_handler_St. 
+    assert (Hw : forall L', klog claims [w] L' = IKey w :: L').
+    { intros L'. unfold klog. cbn [until_claim]. destruct (kP claims w); reflexivity. }
+    assert (Hfires : fires (A ++ B ++ [w] ++ C) =
+                     if kP claims w then fires A || fires B || (w =? w0)
+                     else fires A || fires B || (w =? w0) || fires C).
+    { rewrite fires_app_f by exact EA. rewrite fires_app_f by exact EB.
+      destruct (kP claims w) eqn:Ew.
+      - rewrite fires_app_t by (cbn [existsb]; rewrite Ew; reflexivity). rewrite fires_one. apply orb_assoc.
+      - rewrite fires_app_f by (cbn [existsb]; rewrite Ew; reflexivity). rewrite fires_one.
+        rewrite !orb_assoc. reflexivity. }
+    rewrite Hfires. clear Hfires.
+    destruct (kP claims w) eqn:Ew.
+    { rewrite Hrel. rewrite klog_app_f by exact EA. rewrite klog_app_f by exact EB.
+      rewrite klog_app_t by (cbn [existsb]; rewrite Ew; reflexivity). rewrite Hw.
+      rewrite !existsb_app, EA, EB. cbn [existsb]. rewrite Ew. reflexivity. }
+    assert (Hlog : klog claims (A ++ B ++ [w] ++ C) L =
+                   klog claims C (IKey w :: klog claims B (klog claims A L))).
+    { rewrite klog_app_f by exact EA. rewrite klog_app_f by exact EB.
+      rewrite klog_app_f by (cbn [existsb]; rewrite Ew; reflexivity). rewrite Hw. reflexivity. }
+    assert (Hex : existsb (kP claims) (A ++ B ++ [w] ++ C) = existsb (kP claims) C).
+    { rewrite !existsb_app, EA, EB. cbn [existsb]. rewrite Ew. reflexivity. }
+    rewrite Hlog, Hex. clear Hlog Hex.
+    set (b3 := fires A || fires B || (w =? w0)).
+    rewrite kid_ids_St.
+    destruct b3 eqn:Eb3.
+    - (* the handler has run: the children are those of the cut tree *)
+      assert (Hskip : forall c, In c ch -> In w0 (t_ids c) -> skipb (w_fchild i) stolen c = true).
+      { intros c Hc Hi. unfold skipb. subst b3.
+        apply orb_true_iff in Eb3. destruct Eb3 as [Eb3|Eb3]; [apply orb_true_iff in Eb3; destruct Eb3 as [Eb3|Eb3]|].
+        - destruct (HfA Eb3) as (c0 & Hc0 & Hst0 & Hw0).
+          assert (c = c0) by (apply (NoDup_flat_sep ch c c0 w0 Hndch Hc Hc0 Hi Hw0)). subst c.
+          rewrite Hst0. apply orb_true_r.
+        - destruct (HfB Eb3) as (ck & Hck & Hfk & Hwk).
+          assert (c = ck) by (apply (NoDup_flat_sep ch c ck w0 Hndch Hc Hck Hi Hwk)). subst c.
+          rewrite Hfk. reflexivity.
+        - exfalso. apply Hself. replace w with w0 by (clear - Eb3; lia).
+          apply in_flat_map. exists c. split; assumption. }
+      cbn [cur]. rewrite Hfind1. rewrite cut_kids, map_map.
+      rewrite (map_ext (fun x => t_id (cut w0 x)) t_id (cut_id_eq w0)).
+      set (cs := kids_remove w0 ch).
+      assert (Hinc : incl cs ch) by (intros x Hx; apply filter_In in Hx; apply Hx).
+      assert (Hndcs : NoDup (flat_map t_ids cs)) by (apply NoDup_flat_filter; exact Hndch).
+      rewrite hold_all_St.
+      rewrite (Hloop i ch stolen Hs Hkids Hfh cs Hinc Hndcs true).
+      + rewrite release_all_St, (remove_all_rev _ _ (NoDup_kid_ids cs Hndcs)), Hrel.
+        assert (HC : flat_map (F3 (w_fchild i) stolen) cs = C).
+        { subst cs C. unfold kids_remove. apply flat_map_filter. intros c Hc Hf.
+          rewrite F3_skip. rewrite (Hskip c Hc); [reflexivity|].
+          replace w0 with (t_id c) by (clear - Hf; lia). apply t_id_in. }
+        rewrite HC. cbn [orb]. reflexivity.
+      + intros _ c Hc. apply filter_In in Hc. destruct Hc as (Hc & Hf). split; [clear - Hf; lia|]. apply Hskip. exact Hc.
+    - cbn [cur]. rewrite Hfind. cbn [t_kids]. rewrite hold_all_St.
+      rewrite (Hloop i ch stolen Hs Hkids Hfh ch (incl_refl ch) Hndch false).
+      + fold C. rewrite release_all_St, (remove_all_rev _ _ Hndk), Hrel. reflexivity.
+      + intros Hf. discriminate Hf.
+  Qed.
+End SelfClose.
+
+(* ---- what win_close does to the forest ---- *)
+
+Lemma t_upd_kids_none f pid t : ~ In pid (t_ids t) -> t_upd_kids f pid t = t.
+Proof.
+  induction t as [i ch IH] using wtree_ind'. intros Hn. cbn [t_upd_kids]. cbn [t_ids] in Hn.
+  destruct (w_id i =? pid) eqn:E; [exfalso; apply Hn; left; lia|].
+  f_equal. apply map_id_in. intros c Hc. rewrite Forall_forall in IH. apply IH; [exact Hc|].
+  intro Hi. apply Hn. right. apply in_flat_map. exists c. split; assumption.
+Qed.
+
+Lemma t_update_none g pid t : ~ In pid (t_ids t) -> t_update g pid t = t.
+Proof.
+  induction t as [i ch IH] using wtree_ind'. intros Hn. cbn [t_update]. cbn [t_ids] in Hn.
+  destruct (w_id i =? pid) eqn:E; [exfalso; apply Hn; left; lia|].
+  f_equal. apply map_id_in. intros c Hc. rewrite Forall_forall in IH. apply IH; [exact Hc|].
+  intro Hi. apply Hn. right. apply in_flat_map. exists c. split; assumption.
+Qed.
+
+Definition clrf (w0 : Z) (j : winfo) : winfo := if opt_eqb (w_fchild j) w0 then set_fchild j None else j.
+
+(* the children of a window none of which has w0 inside, except possibly as its own id *)
+Lemma cut_kids_same w0 ch :
+  (forall c, In c ch -> ~ In w0 (flat_map t_ids (t_kids c))) -> map (cut w0) ch = ch.
+Proof. intros Hn. apply map_id_in. intros c Hc. apply cut_same. apply Hn. exact Hc. Qed.
+
+Lemma kids_remove_none w0 ch : (forall c, In c ch -> t_id c <> w0) -> kids_remove w0 ch = ch.
+Proof.
+  intros Hn. unfold kids_remove. apply filter_all. intros c Hc.
+  destruct (t_id c =? w0) eqn:E; [|reflexivity]. exfalso. apply (Hn c Hc). lia.
+Qed.
+
+Lemma upd_cut w0 p n : forall t,
+  NoDup (t_ids t) -> sub p t -> In n (t_kids p) -> t_id n = w0 ->
+  t_update (clrf w0) (t_id p) (t_upd_kids (kids_remove w0) (t_id p) t) = cut w0 t.
+Proof.
+  induction t as [i ch IH] using wtree_ind'. intros Hnd Hs Hn Hid.
+  destruct (NoDup_kids _ Hnd) as (Hndch & Hself). cbn [t_kids] in Hndch, Hself.
+  assert (Hw0p : In w0 (flat_map t_ids (t_kids p))).
+  { rewrite <- Hid. eapply kid_ids_in; [exact Hn|apply t_id_in]. }
+  apply sub_inv in Hs. destruct Hs as [->|(k & Hk & Hpk)].
+  - (* this is the parent *)
+    cbn [t_kids] in Hn, Hw0p. unfold t_id at 1 2. cbn [t_info t_upd_kids t_update]. rewrite Z.eqb_refl.
+    assert (Hnone : forall c, In c ch -> ~ In (w_id i) (t_ids c)).
+    { intros c Hc Hi. apply Hself. apply in_flat_map. exists c. split; assumption. }
+    assert (Hch' : map (t_upd_kids (kids_remove w0) (w_id i)) ch = ch).
+    { apply map_id_in. intros c Hc. apply t_upd_kids_none. apply Hnone. exact Hc. }
+    rewrite Hch'.
+    assert (Hrm : map (t_update (clrf w0) (w_id i)) (kids_remove w0 ch) = kids_remove w0 ch).
+    { apply map_id_in. intros c Hc. apply t_update_none. apply Hnone. apply filter_In in Hc. apply Hc. }
+    rewrite Hrm. cbn [cut].
+    assert (He : existsb (fun c => t_id c =? w0) ch = true).
+    { apply existsb_exists. exists n. split; [exact Hn|lia]. }
+    rewrite He. cbn [andb]. unfold clrf. f_equal. f_equal. symmetry. apply cut_kids_same.
+    intros c Hc Hi.
+    assert (Hcn : c = n).
+    { apply (NoDup_flat_sep ch c n w0 Hndch Hc Hn); [rewrite t_ids_eq; right; exact Hi|rewrite <- Hid; apply t_id_in]. }
+    subst c. assert (Hndn : NoDup (t_ids n)) by (eapply NoDup_flat_in; eassumption).
+    apply NoDup_kids in Hndn. destruct Hndn as (_ & Hx). apply Hx. rewrite Hid. exact Hi.
+  - (* the parent is further down, inside the child k *)
+    cbn [t_kids] in Hk.
+    assert (Hpk_in : In (t_id p) (t_ids k)) by (apply (sub_incl p k Hpk), t_id_in).
+    assert (Hw0k : In w0 (flat_map t_ids (t_kids k))) by (rewrite <- Hid; eapply kid_in_ids; eassumption).
+    assert (Hne : (w_id i =? t_id p) = false).
+    { destruct (w_id i =? t_id p) eqn:E; [|reflexivity]. exfalso. apply Hself.
+      apply in_flat_map. exists k. split; [exact Hk|]. unfold t_id at 1. cbn [t_info].
+      replace (w_id i) with (t_id p) by lia. exact Hpk_in. }
+    cbn [t_upd_kids t_update]. rewrite Hne. cbn [cut].
+    assert (He : existsb (fun c => t_id c =? w0) ch = false).
+    { destruct (existsb (fun c => t_id c =? w0) ch) eqn:E; [|reflexivity]. exfalso.
+      apply existsb_exists in E. destruct E as (c & Hc & Hcid).
+      assert (Hck : c = k).
+      { apply (NoDup_flat_sep ch c k w0 Hndch Hc Hk); [replace w0 with (t_id c) by lia; apply t_id_in|].
+        rewrite t_ids_eq. right. exact Hw0k. }
+      subst c. assert (Hndk : NoDup (t_ids k)) by (eapply NoDup_flat_in; eassumption).
+      apply NoDup_kids in Hndk. destruct Hndk as (_ & Hx). apply Hx. replace (t_id k) with w0 by lia. exact Hw0k. }
+    rewrite He. cbn [andb]. f_equal.
+    rewrite kids_remove_none.
+    + rewrite map_map. apply map_ext_in. intros c Hc.
+      rewrite Forall_forall in IH.
+      destruct (in_dec Z.eq_dec (t_id p) (t_ids c)) as [Hi|Hni].
+      * assert (c = k) by (apply (NoDup_flat_sep ch c k (t_id p) Hndch Hc Hk Hi Hpk_in)). subst c.
+        apply IH; try assumption. eapply NoDup_flat_in; eassumption.
+      * rewrite (t_upd_kids_none _ _ _ Hni), (t_update_none _ _ _ Hni). symmetry. apply cut_same'.
+        intro Hi. apply Hni.
+        assert (c = k).
+        { apply (NoDup_flat_sep ch c k w0 Hndch Hc Hk Hi). rewrite t_ids_eq. right. exact Hw0k. }
+        subst c. exact Hpk_in.
+    + intros c Hc. apply in_map_iff in Hc. destruct Hc as (c' & <- & Hc'). rewrite cut_id_eq.
+      intro Hcid. assert (Ht : existsb (fun c => t_id c =? w0) ch = true).
+      { apply existsb_exists. exists c'. split; [exact Hc'|lia]. }
+      rewrite Ht in He. discriminate He.
+Qed.
+
+(* the chain [win; parent; ...] the C follows *)
+Lemma t_path_shape id : forall t path,
+  t_path id t = Some path ->
+  (path = [t] /\ t_id t = id) \/
+  (exists n p r, rev path = n :: p :: r /\ t_id n = id /\ In n (t_kids p) /\ sub p t).
+Proof.
+  induction t as [i ch IH] using wtree_ind'. intros path Hp. rewrite t_path_eq in Hp.
+  destruct (w_id i =? id) eqn:E.
+  { inversion Hp; subst. left. split; [reflexivity|]. unfold t_id. cbn [t_info]. lia. }
+  destruct (first_some (t_path id) ch) as [p'|] eqn:Ef; [|discriminate Hp]. inversion Hp; subst path. clear Hp.
+  apply first_some_some in Ef. destruct Ef as (c & Hc & Hpc). rewrite Forall_forall in IH.
+  right. destruct (IH c Hc p' Hpc) as [(-> & Hid)|(n & p & r & Hrev & Hid & Hn & Hs)].
+  - exists c, (Node i ch), []. split; [reflexivity|]. split; [exact Hid|]. split; [exact Hc|apply sub_refl].
+  - exists n, p, (r ++ [Node i ch]). cbn [rev]. rewrite Hrev. split; [reflexivity|]. split; [exact Hid|].
+    split; [exact Hn|]. eapply sub_kid; [exact Hc|exact Hs].
+Qed.
+
+Lemma root_damage_forest st d : r_tree (root_damage st d) = r_tree st /\ r_orphans (root_damage st d) = r_orphans st.
+Proof.
+  unfold root_damage. destruct (rs_contains rsfuel (r_damage st) d) as [[|]|]; try (split; reflexivity).
+  destruct (rs_add rsfuel (r_damage st) d); split; reflexivity.
+Qed.
+
+Lemma win_expose_forest st id ex :
+  r_tree (win_expose st id ex) = r_tree st /\ r_orphans (win_expose st id ex) = r_orphans st.
+Proof.
+  unfold win_expose. destruct (t_chain id (r_tree st)); [|split; reflexivity].
+  destruct (expose_up l ex); [apply root_damage_forest|split; reflexivity].
+Qed.
+
+Lemma win_close_forest cfg R w0 n0 :
+  ids_unique R -> t_find w0 (r_tree R) = Some n0 -> w0 <> t_id (r_tree R) ->
+  r_tree (win_close cfg R w0) = cut w0 (r_tree R) /\
+  r_orphans (win_close cfg R w0) = n0 :: r_orphans R.
+Proof.
+  intros Hu Hf Hnr.
+  assert (Hndt : NoDup (t_ids (r_tree R))).
+  { eapply NoDup_flat_in; [exact Hu|]. left. reflexivity. }
+  destruct (t_find_sub _ _ _ Hf) as (Hsub0 & Hid0).
+  assert (Hin : In w0 (t_ids (r_tree R))) by (rewrite <- Hid0; apply (sub_incl _ _ Hsub0), t_id_in).
+  destruct (t_path_some w0 _ Hin) as (path & Hp).
+  unfold win_close, t_chain. rewrite Hp.
+  destruct (t_path_shape w0 _ _ Hp) as [(_ & Hid)|(n & p & r & Hrev & Hid & Hn & Hs)]; [congruence|].
+  rewrite Hrev.
+  assert (Hnn : n = n0).
+  { assert (Hsn : sub n (r_tree R)) by (eapply sub_trans; [apply sub_kid1; exact Hn|exact Hs]).
+    pose proof (t_find_unique _ _ Hndt Hsn) as Hx. rewrite Hid, Hf in Hx. inversion Hx. reflexivity. }
+  subst n.
+  pose proof (upd_cut w0 p n0 (r_tree R) Hndt Hs Hn Hid) as Hcut. unfold clrf in Hcut.
+  cbv zeta.
+  match goal with |- context [if ?c then win_expose ?s ?a ?b else ?s] =>
+    assert (Hx : r_tree (if c then win_expose s a b else s) = r_tree s /\
+                 r_orphans (if c then win_expose s a b else s) = r_orphans s)
+      by (destruct c; [apply win_expose_forest|split; reflexivity]);
+    destruct Hx as (Hx1 & Hx2); rewrite Hx1, Hx2
+  end.
+  match goal with |- context [if ?c then request_restore ?s else ?s] =>
+    destruct c
+  end; cbn [request_restore set_flags set_queue set_orphans set_tree r_tree r_orphans]; rewrite Hcut; split; reflexivity.
+Qed.
+
+Lemma cut_ids_head w0 t : t_ids (cut w0 t) = t_id t :: flat_map t_ids (t_kids (cut w0 t)).
+Proof. rewrite t_ids_eq, cut_id_eq. reflexivity. Qed.
+
+Lemma kids_unchanged w0 r :
+  (forall c, In c r -> ~ In w0 (t_ids c)) -> kids_remove w0 (map (cut w0) r) = r.
+Proof.
+  intros Hn. rewrite cut_kids_same.
+  - apply kids_remove_none. intros c Hc He. apply (Hn c Hc). rewrite <- He. apply t_id_in.
+  - intros c Hc Hi. apply (Hn c Hc). rewrite t_ids_eq. right. exact Hi.
+Qed.
+
+(* cutting w0 out of a tree and keeping its subtree aside loses and duplicates nothing *)
+Lemma cut_perm w0 n0 : t_id n0 = w0 -> forall t,
+  NoDup (t_ids t) -> sub n0 t -> t_id t <> w0 ->
+  Permutation (t_ids t) (t_ids (cut w0 t) ++ t_ids n0).
+Proof.
+  intros Hid0. induction t as [i ch IH] using wtree_ind'. intros Hnd Hs Hne.
+  destruct (NoDup_kids _ Hnd) as (Hndch & _). cbn [t_kids] in Hndch.
+  apply sub_inv in Hs. destruct Hs as [->|(k & Hk & Hsk)]; [congruence|]. cbn [t_kids] in Hk.
+  rewrite cut_ids_head, (t_ids_eq (Node i ch)). cbn [app]. apply perm_skip.
+  change (t_kids (cut w0 (Node i ch))) with (kids_remove w0 (map (cut w0) ch)). cbn [t_kids].
+  assert (Hw0k : In w0 (t_ids k)) by (rewrite <- Hid0; apply (sub_incl _ _ Hsk), t_id_in).
+  clear Hnd Hne. revert Hndch Hk. induction ch as [|a r IHr]; intros Hndch Hk; [destruct Hk|].
+  cbn [flat_map] in Hndch. apply NoDup_app_inv in Hndch. destruct Hndch as (Hnda & Hndr & Hsep).
+  pose proof (Forall_inv IH) as IHa. pose proof (Forall_inv_tail IH) as IHrest. specialize (IHr IHrest Hndr).
+  cbn [map flat_map]. unfold kids_remove. cbn [filter]. rewrite cut_id_eq. fold (kids_remove w0 (map (cut w0) r)).
+  destruct Hk as [->|Hk].
+  - (* a = k holds w0 *)
+    assert (Hr : kids_remove w0 (map (cut w0) r) = r).
+    { apply kids_unchanged. intros c Hc Hi. apply (Hsep w0 Hw0k). apply in_flat_map. exists c. split; assumption. }
+    rewrite Hr. destruct (t_id k =? w0) eqn:E; cbn [negb flat_map].
+    + (* it is w0 itself *)
+      assert (Hkn : n0 = k).
+      { pose proof (t_find_unique k n0 Hnda Hsk) as Hx. pose proof (t_find_unique k k Hnda (sub_refl k)) as Hy.
+        rewrite Hid0 in Hx. replace (t_id k) with w0 in Hy by lia. rewrite Hx in Hy. inversion Hy. reflexivity. }
+      subst k. apply Permutation_app_comm.
+    + assert (Hne : t_id k <> w0) by lia.
+      specialize (IHa Hnda Hsk Hne). rewrite <- app_assoc.
+      eapply Permutation_trans; [apply Permutation_app_tail; exact IHa|].
+      rewrite <- app_assoc. apply Permutation_app_head. apply Permutation_app_comm.
+  - (* k is further on; a is untouched *)
+    assert (Hna : ~ In w0 (t_ids a)).
+    { intro Hi. apply (Hsep w0 Hi). apply in_flat_map. exists k. split; assumption. }
+    rewrite (cut_same' w0 a Hna).
+    destruct (t_id a =? w0) eqn:E; [exfalso; apply Hna; replace w0 with (t_id a) by lia; apply t_id_in|].
+    cbn [negb flat_map]. rewrite <- app_assoc. apply Permutation_app_head. apply IHr. exact Hk.
+Qed.
+
+Lemma sub_cut w0 n0 x t :
+  (forall c, sub c t -> t_id c = w0 -> c = n0) ->
+  sub x t -> sub x n0 \/ sub (cut w0 x) (cut w0 t).
+Proof.
+  intros Huniq Hs. induction Hs as [t|x k t Hk Hs IH]; [right; apply sub_refl|].
+  destruct (Z.eq_dec (t_id k) w0) as [He|Hne].
+  - left. rewrite <- (Huniq k (sub_kid1 k t Hk) He). exact Hs.
+  - destruct IH as [IH|IH].
+    + intros c Hc. apply Huniq. eapply sub_trans; [exact Hc|apply sub_kid1; exact Hk].
+    + left. exact IH.
+    + right. eapply sub_kid; [|exact IH]. destruct t as [i ch]. cbn [t_kids] in Hk. rewrite cut_kids.
+      apply in_map. unfold kids_remove. apply filter_In. split; [exact Hk|].
+      destruct (t_id k =? w0) eqn:E; [lia|reflexivity].
+Qed.
+
+(* CP1 and CP2 of section SelfClose hold for win_close *)
+Lemma close_props cfg R w0 n0 :
+  ids_unique R -> t_find w0 (r_tree R) = Some n0 -> w0 <> t_id (r_tree R) ->
+  ids_unique (win_close cfg R w0) /\
+  forall wn, subl wn (forest R) -> subl (cut w0 wn) (forest (win_close cfg R w0)).
+Proof.
+  intros Hu Hf Hnr. destruct (win_close_forest cfg R w0 n0 Hu Hf Hnr) as (Ht & Ho).
+  assert (Hndt : NoDup (t_ids (r_tree R))).
+  { eapply NoDup_flat_in; [exact Hu|]. left. reflexivity. }
+  destruct (t_find_sub _ _ _ Hf) as (Hsub0 & Hid0).
+  assert (Hw0 : In w0 (t_ids (r_tree R))) by (rewrite <- Hid0; apply (sub_incl _ _ Hsub0), t_id_in).
+  assert (Hndn0 : NoDup (t_ids n0)) by (eapply sub_nodup; eassumption).
+  unfold ids_unique, forest_ids, forest in *. rewrite Ht, Ho. cbn [flat_map] in *.
+  split.
+  - eapply Permutation_NoDup; [|exact Hu]. rewrite app_assoc. apply Permutation_app_tail.
+    apply cut_perm; try assumption. congruence.
+  - intros wn (t & Hin & Hs). destruct Hin as [<-|Hin].
+    + assert (Huniq : forall c, sub c (r_tree R) -> t_id c = w0 -> c = n0).
+      { intros c Hc Hcid. pose proof (t_find_unique _ _ Hndt Hc) as Hx. rewrite Hcid, Hf in Hx.
+        inversion Hx. reflexivity. }
+      destruct (sub_cut w0 n0 wn (r_tree R) Huniq Hs) as [Hin0|Hcut].
+      * exists n0. split; [right; left; reflexivity|]. rewrite cut_same; [exact Hin0|].
+        intro Hi. apply NoDup_kids in Hndn0. destruct Hndn0 as (_ & Hx). apply Hx. rewrite Hid0.
+        destruct (sub_inv _ _ Hin0) as [->|(k & Hk & Hsk)]; [exact Hi|].
+        eapply kid_ids_in; [exact Hk|]. apply (sub_incl _ _ Hsk). rewrite t_ids_eq. right. exact Hi.
+      * exists (cut w0 (r_tree R)). split; [left; reflexivity|exact Hcut].
+    + exists t. split; [right; right; exact Hin|]. rewrite cut_same'; [exact Hs|].
+      intro Hi. apply NoDup_app_inv in Hu. destruct Hu as (_ & _ & Hsep). apply (Hsep w0 Hw0).
+      apply in_flat_map. exists t. split; [exact Hin|]. apply (sub_incl _ _ Hs). exact Hi.
+Qed.
+
+Lemma iev_eqb_refl e : iev_eqb e e = true.
+Proof. destruct e; cbn [iev_eqb]; rewrite ?Z.eqb_refl; reflexivity. Qed.
+
+Lemma ievs_eqb_refl l : ievs_eqb l l = true.
+Proof. induction l as [|e l IH]; [reflexivity|]. cbn [ievs_eqb]. rewrite iev_eqb_refl, IH. reflexivity. Qed.
+
+Lemma c14_rest_checkb_refl closed l : c14_rest_checkb closed l l = true.
+Proof. unfold c14_rest_checkb. apply ievs_eqb_refl. Qed.
+
+(* C14, a window closing itself inside its key handler: routing a key from any window w
+   (subtree wn), with the one-shot mutation "the key handler of w0 closes w0" armed and w0 a
+   non-root window of the tree, makes exactly the deliveries of the unmutated order --
+   including those inside the closed subtree, which is detached but still alive -- up to and
+   including the first claimer; it does not fault, frees nothing, and gives back every
+   reference it took; the tree afterwards is the one win_close produces iff w0 was offered
+   the key.  In particular the check of the property, [c14_rest_checkb], passes -- for every
+   claim pattern, not only when nobody claims. *)
+Theorem C14_mutation_self fuel claims s w wn w0 n0 s' r :
+  i_armed s = [(w0, (0, 1, w0))] -> i_freed s = [] -> i_pending s = [] -> i_fault s = false ->
+  ids_unique (i_root s) ->
+  t_find w0 (r_tree (i_root s)) = Some n0 -> w0 <> t_id (r_tree (i_root s)) ->
+  look s w = Some wn -> focus_okb wn = true -> (height wn < fuel)%nat ->
+  handle_key fuel no_defects claims s w = (s', r) ->
+  let offered := fst (until_claim (fun x => Z.testbit (claims x) 0) (key_order wn)) in
+  i_log s' = rev (key_spec claims wn) ++ i_log s /\
+  r = existsb (fun x => Z.testbit (claims x) 0) (key_order wn) /\
+  i_fault s' = false /\ i_freed s' = [] /\ i_pending s' = [] /\ i_holds s' = i_holds s /\
+  (mem w0 offered = true -> i_root s' = win_close no_defects (i_root s) w0 /\ i_armed s' = []) /\
+  (mem w0 offered = false -> i_root s' = i_root s /\ i_armed s' = i_armed s) /\
+  (i_log s = [] -> c14_rest_checkb (t_ids n0) (key_spec claims wn) (rev (i_log s')) = true).
+Proof.
+  intros Ha Hfr Hpe Hfa Hu Hf Hnr Hl Hfo Hh Hrun. cbv zeta.
+  destruct s as [R0 fr H pe ar L fa]. cbn [i_armed i_freed i_pending i_fault i_root i_log i_holds] in *. subst fr pe fa ar.
+  change (mkI R0 [] H [] [(w0, (0, 1, w0))] L false) with (St R0 w0 false H L) in Hrun, Hl.
+  rewrite look_St in Hl. cbn [cur] in Hl. apply f_find_sub in Hl. destruct Hl as (Hs & Hid). subst w.
+  destruct (close_props no_defects R0 w0 n0 Hu Hf Hnr) as (CP1 & CP2).
+  assert (Hin0 : t_find w0 (r_tree R0) <> None) by (rewrite Hf; discriminate).
+  rewrite (mut_key claims R0 w0 Hu Hin0 Hnr CP1 CP2 fuel wn Hs Hfo Hh H L) in Hrun.
+  inversion Hrun; subst s' r. clear Hrun.
+  fold (kP claims). fold (fires claims w0 (key_order wn)).
+  cbn [St i_log i_fault i_freed i_pending i_holds i_root i_armed].
+  split; [reflexivity|]. split; [reflexivity|]. split; [reflexivity|]. split; [reflexivity|].
+  split; [reflexivity|]. split; [reflexivity|].
+  split; [intros ->; split; reflexivity|]. split; [intros ->; split; reflexivity|].
+  intros ->. rewrite klog_spec, app_nil_r, rev_involutive. apply c14_rest_checkb_refl.
+Qed.
+
+(* the same from the terminal: on_term_key *)
+Corollary C14_mutation_self_term claims t w0 n0 :
+  NoDup (t_ids t) -> focus_okb t = true -> (height t < ifuel)%nat ->
+  t_find w0 t = Some n0 -> w0 <> t_id t ->
+  let s' := term_key no_defects claims (mk_state t [(w0, (0, 1, w0))]) in
+  rev (i_log s') = key_spec claims t /\ i_fault s' = false /\ i_holds s' = [] /\ i_freed s' = [] /\
+  c14_rest_checkb (t_ids n0) (key_spec claims t) (rev (i_log s')) = true.
+Proof.
+  intros Hnd Hfo Hh Hf Hnr. cbv zeta. unfold term_key.
+  destruct (handle_key ifuel no_defects claims (mk_state t [(w0, (0, 1, w0))])
+              (t_id (r_tree (i_root (mk_state t [(w0, (0, 1, w0))]))))) as [s' r] eqn:Hrun.
+  assert (Hu : ids_unique (i_root (mk_state t [(w0, (0, 1, w0))]))).
+  { unfold ids_unique, forest_ids, forest. cbn [mk_state mk_root i_root r_tree r_orphans flat_map]. rewrite app_nil_r. exact Hnd. }
+  assert (Hl : look (mk_state t [(w0, (0, 1, w0))]) (t_id (r_tree (i_root (mk_state t [(w0, (0, 1, w0))])))) = Some t).
+  { change (look (mk_state t [(w0, (0, 1, w0))]) (t_id t)) with (f_find (mk_root t) (t_id t)).
+    apply (f_find_unique (mk_root t) t Hu). apply (tree_subl (mk_root t)). }
+  destruct (C14_mutation_self ifuel claims (mk_state t [(w0, (0, 1, w0))]) _ t w0 n0 s' r eq_refl eq_refl eq_refl eq_refl Hu Hf Hnr Hl Hfo Hh Hrun)
+    as (H1 & _ & H3 & H4 & _ & H6 & _ & _ & H9).
+  cbn [fst]. cbn [mk_state i_log i_holds] in H1, H6, H9. rewrite app_nil_r in H1.
+  split; [rewrite H1; apply rev_involutive|]. split; [exact H3|]. split; [exact H6|]. split; [exact H4|].
+  apply H9. reflexivity.
+Qed.
+
+(* ---- concrete runs with other mutations (not covered by the theorem above) ---- *)
+(* in tree_nv (nobody claims): 2 destroys itself; 1 closes / destroys 3; 5 destroys its parent 1 *)
+Example C14_mutation_examples :
+  let run a := term_key no_defects (fun _ => 0) (mk_state tree_nv a) in
+  let spec := key_spec (fun _ => 0) tree_nv in
+  (rev (i_log (run [(2, (0, 1, 2))])) = spec /\ i_fault (run [(2, (0, 1, 2))]) = false) /\
+  (c14_rest_checkb [2; 6] spec (rev (i_log (run [(2, (0, 2, 2))]))) = true /\
+   i_fault (run [(2, (0, 2, 2))]) = false /\ i_freed (run [(2, (0, 2, 2))]) = [2] /\
+   i_holds (run [(2, (0, 2, 2))]) = [] /\ i_pending (run [(2, (0, 2, 2))]) = []) /\
+  (c14_rest_checkb [3; 7] spec (rev (i_log (run [(1, (0, 1, 3))]))) = true /\
+   i_fault (run [(1, (0, 1, 3))]) = false) /\
+  (c14_rest_checkb [3; 7] spec (rev (i_log (run [(1, (0, 2, 3))]))) = true /\
+   i_fault (run [(1, (0, 2, 3))]) = false /\ i_freed (run [(1, (0, 2, 3))]) = [3]) /\
+  (c14_rest_checkb [1; 5] spec (rev (i_log (run [(5, (0, 2, 1))]))) = true /\
+   i_fault (run [(5, (0, 2, 1))]) = false /\ i_freed (run [(5, (0, 2, 1))]) = [1]).
+Proof. vm_compute. repeat split; reflexivity. Qed.
